@@ -1,6 +1,175 @@
-(* C19 -- property theorems (under construction: see C19/Proofs.v) *)
-From SV Require Import Lib.Base C19.Model.
+(* C19 -- editing or cloning the XML tree affects exactly the nodes named.
+   Property theorems only: each is closed by `exact` of a lemma proved in the
+   proof files (Rel, ForestFacts, ForestFacts2, ChainFacts, Ops, Prune, Clone,
+   CloneEq, Main) and followed by Print Assumptions.
 
-Theorem placeholder_true : True.
-Proof. exact I. Qed.
-Print Assumptions placeholder_true.
+   Model.v has the heap MODEL of suds.sax.element (ids = Element objects, parent
+   pointers, children lists, own data) written as the Python is, and the
+   REFERENCE: a forest of rose trees whose nodes carry their identity, on which
+   every edit is applied structurally to the node with the identity given.
+   R s rs (Rel.v): every node of the reference forest is the heap cell with
+   that id -- same parent, same children in the same order, same data -- and no
+   identity occurs twice. *)
+From SV Require Import Lib.Base C19.Model C19.Rel C19.ForestFacts C19.ChainFacts C19.CloneEq C19.Main.
+
+(* Edit histories of ANY length: whatever sequence of append, insert, remove,
+   detach, replaceChild, detachChildren, prune, attribute set/unset/remove, setText,
+   rename, setPrefix/addPrefix/clearPrefix, clone and lookups is run, the heap the
+   code builds is the reference tree obtained by applying each edit to the very
+   node given.  No hypothesis on sibling names: the theorem that needed
+   `distinct_siblings` before the repair of detach/replaceChild/prune is now
+   unguarded.  (ref_run = Some: every edit is in the reference's domain, which
+   is described at Model.ref_step and never mentions element names.) *)
+Theorem edit_refines_reference : forall quirk h s rs rs',
+  R s rs -> ref_run rs h = Some rs' -> R (run quirk s h) rs'.
+Proof. exact edit_refines_reference_l. Qed.
+Print Assumptions edit_refines_reference.
+
+(* in particular for everything built from nothing through the API *)
+Theorem edit_refines_reference_from_empty : forall quirk h rs',
+  ref_run empty_rstate h = Some rs' -> R (run quirk empty_store h) rs'.
+Proof. intros quirk h rs'. exact (edit_refines_reference_l quirk h _ _ rs' R_empty). Qed.
+Print Assumptions edit_refines_reference_from_empty.
+
+(* one step: the state AND the value returned to the caller agree *)
+Theorem edit_step_refines : forall quirk s rs o rs' r,
+  R s rs -> ref_step rs o = Some (rs', r) ->
+  R (fst (step quirk s o)) rs' /\ snd (step quirk s o) = r.
+Proof. exact step_refines_l. Qed.
+Print Assumptions edit_step_refines.
+
+(* WF (parent and children links agree both ways, no node listed twice, every
+   live node defined, acyclic) follows from R, hence holds after every history *)
+Theorem wf_invariant : forall quirk h s rs rs',
+  R s rs -> ref_run rs h = Some rs' ->
+  WF (run quirk s h) (fun i => In i (ids_f (r_forest rs'))).
+Proof.
+  intros quirk h s rs rs' HR H. apply R_wf_l. exact (edit_refines_reference_l quirk h s rs rs' HR H).
+Qed.
+Print Assumptions wf_invariant.
+
+(* edits of a node's own data write that node's cell only, and keep its links *)
+Theorem data_edits_are_local : forall quirk s o x,
+  data_target o = Some x ->
+  (forall i, i <> x -> get (fst (step quirk s o)) i = get s i) /\
+  (forall c, get s x = Some c ->
+     exists d, get (fst (step quirk s o)) x = Some (mkC (c_parent c) (c_kids c) d)).
+Proof. exact data_edit_local_l. Qed.
+Print Assumptions data_edits_are_local.
+
+(* detach writes the node given and its parent, never a sibling *)
+Theorem detach_is_local : forall s x cx,
+  get s x = Some cx ->
+  forall i, i <> x -> c_parent cx <> Some i -> get (m_detach s x) i = get s i.
+Proof. exact detach_local_l. Qed.
+Print Assumptions detach_is_local.
+
+(* A clone is an equal, independent tree: same prefixes, local names, resolved
+   namespaces, attributes, text and children (for elements whose names are as
+   the constructor splits them and whose prefix maps have one entry per prefix
+   -- both always true of trees built through the API); it is made of new nodes
+   only, the original and everything else is untouched, and the result is
+   again related to the reference (so every later edit of either tree goes to
+   the node given, by the theorems above). *)
+Theorem clone_equal_independent : forall quirk s rs x tx,
+  R s rs -> find_f (r_forest rs) x = Some tx ->
+  exists t' n',
+    ref_step rs (OClone x) = Some (mkR (F1 t' (r_forest rs)) n', RNodes [r_next rs]) /\
+    snd (step quirk s (OClone x)) = RNodes [rid t'] /\
+    R (fst (step quirk s (OClone x))) (mkR (F1 t' (r_forest rs)) n') /\
+    (well_named_t tx = true -> nsp_ok_t tx = true ->
+     sem_t [] t' = sem_t (rpchain (r_forest rs) x) tx) /\
+    (forall i, In i (ids_t t') -> ~ In i (ids_f (r_forest rs))) /\
+    (forall i, In i (ids_f (r_forest rs)) -> get (fst (step quirk s (OClone x))) i = get s i).
+Proof. exact clone_equal_independent_l. Qed.
+Print Assumptions clone_equal_independent.
+
+(* the hypothesis on prefix maps is needed for arbitrary data (a map listing a
+   prefix twice), though no history can produce such a map *)
+Theorem clone_equal_needs_distinct_prefixes :
+  ~ (forall t n pch t' n', well_named_t t = true ->
+       clone_t n pch t = (t', n') -> sem_t [] t' = sem_t pch t).
+Proof. exact clone_equal_needs_nsp_ok. Qed.
+Print Assumptions clone_equal_needs_distinct_prefixes.
+
+(* Lookups (getChild, getChildren, childAtPath, childrenAtPath, getAttribute,
+   namespace) return on the heap exactly what the reference returns on the
+   forest, and change nothing ... *)
+Theorem lookups_exact : forall quirk s rs o rs' r,
+  R s rs -> is_lookup o = true -> ref_step rs o = Some (rs', r) ->
+  step quirk s o = (s, r) /\ rs' = rs.
+Proof. exact lookups_refine. Qed.
+Print Assumptions lookups_exact.
+
+(* ... which for getChildren is, in document order, exactly the children that
+   match the name and the namespace *)
+Theorem getChildren_exact : forall quirk s rs p qn ns tp,
+  R s rs -> find_f (r_forest rs) p = Some tp ->
+  let key := lookup_key qn ns (rchain (r_forest rs) p) in
+  snd (step quirk s (OGetChildren p (Some qn) ns)) =
+  RNodes (map rid (filter (tree_matches (Some (fst key)) (snd key) (rchain (r_forest rs) p))
+                          (flist (rkids tp)))).
+Proof. exact getChildren_exact_l. Qed.
+Print Assumptions getChildren_exact.
+
+(* walking up the parent pointers yields the ancestors of the reference tree
+   (what namespace and prefix resolution is computed from) *)
+Theorem namespaces_agree : forall s rs x, R s rs -> In x (ids_f (r_forest rs)) ->
+  chain_of s x = rchain (r_forest rs) x.
+Proof. exact chain_refines. Qed.
+Print Assumptions namespaces_agree.
+
+(* plain() of a node of the heap is the serialisation of its reference tree *)
+Theorem plain_agrees : forall s rs x, R s rs -> In x (ids_f (r_forest rs)) ->
+  plain_of s x = ref_plain (r_forest rs) x.
+Proof. exact plain_refines. Qed.
+Print Assumptions plain_agrees.
+
+(* Why identity matters: the removal by Element.__eq__ (the code before commit
+   340f28c) detaches the FIRST of two same-named siblings when the second is
+   given; the current model and the reference detach the second. *)
+Theorem detach_by_equality_refuted :
+  let s := run false empty_store two_a in
+  kids_of (m_detach_by_equality s 2%N) 0%N = [2]%N /\
+  kids_of (m_detach s 2%N) 0%N = [1]%N /\
+  option_map (fun rs => kids_ids (r_forest rs) 0%N)
+             (ref_run empty_rstate (two_a ++ [ODetach 2%N])) = Some [1]%N.
+Proof. exact detach_by_equality_refuted_l. Qed.
+Print Assumptions detach_by_equality_refuted.
+
+(* Attributes are still removed through list.remove, i.e. by Attribute.__eq__,
+   which compares self.prefix with rhs.name: on <r n:n="1" q:n="2"/>,
+   unset("q:n") removes n:n (model with quirk = true, as the code is); with
+   __eq__ comparing prefix with prefix q:n goes.  The reference makes no claim
+   here (an earlier attribute has the same local name), which is the only
+   attribute-related restriction of edit_refines_reference. *)
+Theorem unset_by_equality_refuted :
+  attr_names (run true empty_store (two_attrs ++ [OUnset 0%N sqn])) 0%N = [sqn] /\
+  attr_names (run false empty_store (two_attrs ++ [OUnset 0%N sqn])) 0%N = [snn] /\
+  ref_run empty_rstate (two_attrs ++ [OUnset 0%N sqn]) = None.
+Proof. exact unset_by_equality_refuted_l. Qed.
+Print Assumptions unset_by_equality_refuted.
+
+(* non-vacuity: a history with repeated sibling names using every kind of edit
+   is inside the reference's domain, so the hypotheses above are satisfiable *)
+Definition demo_history : list op :=
+  two_a ++
+  [ONew sa None; ONew [98]%N None;                          (* 3 = a, 4 = b, parentless *)
+   OSetText 2%N (Some [116]%N); OSet 2%N [107]%N [118]%N;
+   ODetach 2%N; OInsert 0%N 2%N 0%Z; OAppend 1%N [3]%N;
+   OReplace 0%N 1%N [4]%N; ORemove 0%N 4%N; OAppend 0%N [1]%N;
+   OClone 0%N; OPrune 0%N; ODetachChildren 0%N;
+   OGetChildren 0%N (Some sa) None; OUnset 2%N [107]%N; ORename 2%N [112; 58; 97]%N].
+
+Example history_nonvacuous :
+  exists rs', ref_run empty_rstate demo_history = Some rs' /\
+              length (ids_f (r_forest rs')) = 7%nat.
+Proof. vm_compute. eexists. split; reflexivity. Qed.
+
+Example clone_nonvacuous :
+  exists rs', ref_run empty_rstate (two_a ++ [OSetText 2%N (Some [116]%N)]) = Some rs' /\
+  match find_f (r_forest rs') 0%N with
+  | Some tx => well_named_t tx && nsp_ok_t tx
+  | None => false
+  end = true.
+Proof. vm_compute. eexists. split; reflexivity. Qed.
